@@ -152,6 +152,11 @@ var FieldTypes = map[string]FieldType{
 	"dateTimeNanoseconds":  DateTimeNanoseconds,
 	"ipv4Address":          Ipv4Address,
 	"ipv6Address":          Ipv6Address,
+
+	// structured data types (RFC 6313) are carried as opaque octets
+	"basicList":            OctetArray,
+	"subTemplateList":      OctetArray,
+	"subTemplateMultiList": OctetArray,
 }
 
 //InfoModel maps element to name and type based on the field id and enterprise id
